@@ -2,6 +2,7 @@
 from fractions import Fraction
 
 import datafiles
+import facts
 import hirutil as H
 import hirpp
 import k2
@@ -219,36 +220,34 @@ def provenance(chk, F):
     i, j, st = agg[0]
     fields = dict(zip(st["rv"]["fields"], st["rv"]["ops"]))
     src = {k: ap_str(sh.apath(v)) for k, v in fields.items()}
-    # factor / divfactor are multi-def locals (if/else); look at the to_string calls
-    ts = [(bb, t) for bb, t in sh.calls() if "callee" in t and t["callee"]["path"].endswith("ToString>::to_string")]
-    srcs = sorted(ap_str(sh.apath(t["args"][0])) for _, t in ts)
-    ok = len(srcs) == 2 and srcs[0].startswith("types::numeric::Numeric::to_rational(arg5).0") and srcs[1].startswith("types::numeric::Numeric::to_rational(arg5).1")
-    chk.decide(ok, "parts-provenance", sk, "factor-divfactor-from-same-constant", sh.where(), "factor and divfactor are numerator and denominator of the same bottom_const", "factor/divfactor come from %s" % srcs)
-    # ... and from nothing else: every definition of the two fields is None or Some(<integer>.to_string()) of the exact numerator /
-    # denominator.  A constant written through a digits-limited formatter (Numeric::to_string, string_repr) is cut after a few
-    # digits while the numeral next to it was computed with the whole constant.
-    from facts import place_of
+    # factor / divfactor: every value that can reach the field is nothing or the decimal string of the exact numerator /
+    # denominator of the target's constant - however the choice is written (if/else, bool::then, Option::filter/map, a private
+    # helper).  A constant written through a digits-limited formatter (Numeric::to_string, string_repr) is cut after a few digits
+    # while the numeral next to it was computed with the whole constant.
+    import prov
+    got = {}
     for k_, comp in (("factor", ".0"), ("divfactor", ".1")):
-        pl = place_of(fields[k_]) if k_ in fields else None
-        defs_ = sh.defs().get(pl["l"], []) if pl and not pl["p"] else None
-        bad = []
-        if defs_ is None:
-            bad.append(src.get(k_, "?")[:80])
+        bad, good = [], []
+        if k_ not in fields:
+            bad.append("field not written")
         else:
-            for d in defs_:
-                if d[0] == "stmt" and d[3].get("k") == "agg" and d[3].get("variant") == "None":
-                    continue
-                if d[0] == "stmt" and d[3].get("k") == "agg" and d[3].get("variant") == "Some":
-                    a_ = ap_str(sh.apath(d[3]["ops"][0]))
-                    if a_ == "<T as alloc::string::ToString>::to_string(types::numeric::Numeric::to_rational(arg5)%s)" % comp:
+            for callee, args in prov.producers(F, sh, fields[k_]):
+                if callee.endswith("ToString>::to_string") and isinstance(args, list) and len(args) == 1:
+                    a_ = ap_str(facts.expand_ap(F, CORE, prov.payload(args[0])))
+                    if a_ == "types::numeric::Numeric::to_rational(arg5)%s" % comp:
+                        good.append(a_)
                         continue
-                    bad.append(a_[:100])
-                    continue
-                bad.append(ap_str(sh.apath(d[3]["a"]))[:100] if d[0] == "stmt" and d[3].get("k") == "use" else d[0])
-        chk.decide(not bad, "parts-provenance", sk, "%s-is-the-exact-integer" % k_, sh.where(i, j),
+                    bad.append("to_string(%s)" % a_[:90])
+                else:
+                    bad.append("%s(%s)" % (callee, ", ".join(ap_str(x)[:60] for x in args) if isinstance(args, list) else args))
+        got[k_] = (good, bad)
+        chk.decide(good and not bad, "parts-provenance", sk, "%s-is-the-exact-integer" % k_, sh.where(i, j),
                    "%s is None or the exact %s of the target's constant" % (k_, "numerator" if comp == ".0" else "denominator"),
                    "%s can also be %s: a constant printed through a digits-limited formatter is truncated (`2 lb -> 0.45359237 kg` prints "
-                   "`2 * 0.4535923 kilogram`)" % (k_, bad))
+                   "`2 * 0.4535923 kilogram`)" % (k_, bad or "nothing at all"))
+    ok = bool(got["factor"][0]) and bool(got["divfactor"][0])
+    chk.decide(ok, "parts-provenance", sk, "factor-divfactor-from-same-constant", sh.where(), "factor and divfactor are numerator and denominator of the same bottom_const",
+               "factor/divfactor come from %s" % {k: v[0] + v[1] for k, v in got.items()})
     ok = "unit_to_string" in src.get("unit", "") and "arg4" in src.get("unit", "") and "arg4" in src.get("raw_unit", "")
     chk.decide(ok, "parts-provenance", sk, "unit-from-target-name-map", sh.where(i, j), "the printed unit is the target's own name map", "unit/raw_unit are %s" % {k: src.get(k, "")[:80] for k in ("unit", "raw_unit")})
     ok = "numeric_value(arg2" in src.get("exact_value", "") and "numeric_value(arg2" in src.get("approx_value", "") and "arg2" in src.get("raw_value", "")
